@@ -56,9 +56,11 @@ pub enum ValueStyle {
     Near2p52,
     SmallUniform,
     WideUniform,
+    /// one value (the minimum, the maximum or one in the middle) makes up most of the cells
+    Dominant,
 }
 
-pub const STYLES: [ValueStyle; 8] = [
+pub const STYLES: [ValueStyle; 9] = [
     ValueStyle::TinyAlphabet,
     ValueStyle::DistinctRanks,
     ValueStyle::TwoValued,
@@ -67,6 +69,7 @@ pub const STYLES: [ValueStyle; 8] = [
     ValueStyle::Near2p52,
     ValueStyle::SmallUniform,
     ValueStyle::WideUniform,
+    ValueStyle::Dominant,
 ];
 
 /// integer values (to be encoded by the element type); `cap` bounds |v| so
@@ -136,6 +139,16 @@ pub fn gen_ints(rng: &mut Rng, ty: ElemTy, n: usize, style: ValueStyle, allow_ex
             }
         }
         ValueStyle::SmallUniform => (0..n).map(|_| uni(rng, -100, 100)).collect(),
+        ValueStyle::Dominant => {
+            let pct = 60 + rng.below(38) as u32;
+            let span = 1 + rng.below(40) as i128;
+            let dom = match rng.below(3) {
+                0 => clampv(base),
+                1 => clampv(base + span),
+                _ => clampv(base + span / 2),
+            };
+            (0..n).map(|_| if rng.chance(pct, 100) { dom } else { clampv(base + uni(rng, 0, span).min(span)) }).collect()
+        }
         ValueStyle::WideUniform => (0..n).map(|_| uni(rng, clo, chi)).collect(),
     }
 }
@@ -287,6 +300,16 @@ fn pick_lane(rng: &mut Rng, shape: &[usize]) -> Option<(Option<(usize, usize)>, 
         return None;
     }
     Some((Some((a, rng.below(lanes))), shape[a]))
+}
+
+/// the re-entrant element type is only used on small worlds (its comparisons draw entropy themselves)
+fn maybe_reent(rng: &mut Rng, ty: ElemTy, lens: &[usize]) -> ElemTy {
+    let total: usize = lens.iter().product();
+    if lens.iter().all(|&l| l <= 16) && total <= 64 && rng.chance(1, 10) {
+        ElemTy::Reent
+    } else {
+        ty
+    }
 }
 
 fn new_op(rng: &mut Rng, name: &str) -> Op {
@@ -527,6 +550,7 @@ fn gen_array_scenario_inner(prop: Prop, rng: &mut Rng, tier: Tier) -> Scenario {
             let big = if thorough { if rng.chance(1, 100) { 300 } else { 64 } } else { 12 };
             let nd = if rng.chance(1, 5) { 2 } else { 1 };
             let lens = lens_for(rng, nd, big, 3, false, thorough);
+            let ty = maybe_reent(rng, ty, &lens);
             let flag_ = rng.chance(1, 4);
             let (parent_shape, view) = gen_view(rng, &lens, flag_);
             let total: usize = parent_shape.iter().product();
@@ -573,6 +597,7 @@ fn gen_array_scenario_inner(prop: Prop, rng: &mut Rng, tier: Tier) -> Scenario {
             let big = if thorough { 64 } else { 10 };
             let nd = if rng.chance(1, 6) { 2 } else { 1 };
             let lens = lens_for(rng, nd, big, 3, true, thorough);
+            let ty = maybe_reent(rng, ty, &lens);
             let flag_ = rng.chance(1, 3);
             let (parent_shape, view) = gen_view(rng, &lens, flag_);
             let total: usize = parent_shape.iter().product();
